@@ -432,6 +432,78 @@ func ruleRemoversUpdateTreeSummary(c *Ctx, rule string) {
 		_, updates := reach[a.TreeSummaryBuilder]
 		construct := "removes-via:" + an.FuncKey(rem) + "/reaches:" + an.FuncKey(a.TreeSummaryBuilder)
 		c.R.Add(rule+"a", c.fk(f), construct, c.P.Pos(f.Pos()), updates, ifelse(updates, "reaches the tree-wide updater: "+an.Chain(reach, a.TreeSummaryBuilder), "removes routes ("+remDesc+", via "+an.Chain(reach, rem)+") but never updates the tree-wide method counters: OPTIONS * keeps listing methods of removed routes"))
+		if updates {
+			// path-sensitive: after every removing effect / call of a removing function, every successful path updates
+			removers := map[*ssa.Function]bool{}
+			for h := range reach {
+				if _, ok := removing(h); ok {
+					removers[h] = true
+				}
+			}
+			for changed := true; changed; {
+				changed = false
+				for h := range reach {
+					if removers[h] {
+						continue
+					}
+					an.AllInstrs(h, func(in ssa.Instruction) {
+						if call := an.CallOf(in); call != nil {
+							if g2 := an.StaticCallee(call); g2 != nil && removers[g2] && !removers[h] {
+								removers[h] = true
+								changed = true
+							}
+						}
+					})
+				}
+			}
+			updaters := map[*ssa.Function]bool{a.TreeSummaryBuilder: true}
+			isUpdate := func(in ssa.Instruction) bool {
+				if _, isDefer := in.(*ssa.Defer); isDefer {
+					return false
+				}
+				call := an.CallOf(in)
+				if call == nil {
+					return false
+				}
+				g2 := an.StaticCallee(call)
+				return g2 != nil && updaters[g2]
+			}
+			for changed := true; changed; {
+				changed = false
+				for h := range reach {
+					if updaters[h] || len(h.Blocks) == 0 {
+						continue
+					}
+					if (&an.Query{Target: func(t ssa.Instruction) bool { r, ok := t.(*ssa.Return); return ok && an.IsSuccessReturn(r) }, Block: isUpdate}).Search(an.Entry(h)) == nil {
+						updaters[h] = true
+						changed = true
+					}
+				}
+			}
+			an.AllInstrs(f, func(in ssa.Instruction) {
+				isRem := false
+				if _, ok := removingInstr(c, in); ok {
+					isRem = true
+				}
+				if call := an.CallOf(in); call != nil {
+					if g2 := an.StaticCallee(call); g2 != nil && removers[g2] && g2 != f {
+						isRem = true
+					}
+				}
+				if !isRem {
+					return
+				}
+				path := (&an.Query{Target: func(t ssa.Instruction) bool { r, ok := t.(*ssa.Return); return ok && an.IsSuccessReturn(r) }, Block: isUpdate}).Search(an.After(in))
+				what := "effect"
+				if call := an.CallOf(in); call != nil {
+					what = "call:" + an.CalleeName(call)
+				}
+				o := c.R.Add(rule+"a", c.fk(f), "after-removal:"+what+"/every-path-updates", c.pos(in), path == nil, ifelse(path == nil, "every successful path after the removal updates the tree-wide summary", "after routes were removed a successful return is reachable without updating the tree-wide method counters (the update is conditional): OPTIONS * keeps listing methods of removed routes"))
+				if path != nil {
+					o.Path = c.P.PathString(path)
+				}
+			})
+		}
 	}
 	if n == 0 {
 		an.Fatalf("UNRESOLVED anchor: no removing Tree entry point found")
